@@ -252,7 +252,7 @@ func init() {
 		"strings.Join", "strings.HasSuffix", "strings.EqualFold", "strings.Replace", "strings.ReplaceAll", "strings.Fields", "strings.TrimRight", "strings.TrimLeft", "strings.Trim",
 		"strconv.Atoi", "strconv.Itoa", "strconv.ParseInt", "strconv.ParseUint", "strconv.FormatInt", "strconv.Quote",
 		"(*regexp.Regexp).FindStringSubmatch", "(*regexp.Regexp).MatchString", "(*regexp.Regexp).FindString", "hash/crc32.ChecksumIEEE", "hash/crc32.Update",
-		"(*strings.Builder).String", "(*strings.Builder).Len", "(*bytes.Buffer).Len", "(*bytes.Buffer).String", "(*bytes.Reader).Len", "(*bytes.Reader).Size", "path.Base", "path/filepath.Base", "path/filepath.Join", "path/filepath.Dir",
+		"(*strings.Builder).String", "(*bytes.Buffer).Len", "(*bytes.Buffer).String", "(*bytes.Reader).Len", "(*bytes.Reader).Size", "path.Base", "path/filepath.Base", "path/filepath.Join", "path/filepath.Dir",
 		"fmt.Fprintf", "fmt.Fprintln", "fmt.Printf", "fmt.Println", "(time.Duration).String", "bytes.HasPrefix", "bytes.Contains", "unicode.IsSpace",
 		"github.com/klauspost/compress/zstd.WithEncoderLevel", "github.com/pierrec/lz4/v4.CompressionLevelOption"} {
 		reg(n, nil, pureFresh(false))
@@ -274,11 +274,36 @@ func init() {
 	reg("github.com/klauspost/compress/zstd.NewReader", nil, ctor2)
 	reg("github.com/klauspost/compress/zstd.NewWriter", nil, ctor2)
 	// methods of external concrete types that only touch their own (external) state
-	for _, n := range []string{"(*bytes.Reader).Reset", "(*bytes.Buffer).Reset", "(*strings.Builder).Reset", "(*github.com/klauspost/compress/zstd.Decoder).Close", "(*github.com/pierrec/lz4/v4.Reader).Reset",
+	for _, n := range []string{"(*bytes.Reader).Reset", "(*bytes.Buffer).Reset", "(*github.com/klauspost/compress/zstd.Decoder).Close", "(*github.com/pierrec/lz4/v4.Reader).Reset",
 		"(*github.com/pierrec/lz4/v4.Writer).Apply", "(*github.com/pierrec/lz4/v4.Writer).Reset", "(*github.com/klauspost/compress/zstd.Encoder).Reset",
-		"(*github.com/klauspost/compress/zstd.Decoder).Reset", "(*strings.Builder).WriteString", "(*strings.Builder).WriteByte", "(*strings.Builder).WriteRune", "(*bytes.Buffer).WriteString", "(*bytes.Buffer).WriteByte"} {
+		"(*github.com/klauspost/compress/zstd.Decoder).Reset", "(*strings.Builder).WriteByte", "(*strings.Builder).WriteRune", "(*bytes.Buffer).WriteString", "(*bytes.Buffer).WriteByte"} {
 		reg(n, nil, pureFresh(false))
 	}
+	sbLen := func(e *Engine, h *Heap, recv Val) (string, string) {
+		arr := e.comp(h, "G.sb_len", "Int", false)
+		return arr, e.scalar(recv)
+	}
+	reg("(*strings.Builder).WriteString", []string{"G.sb_len"}, func(f *frame, in ssa.Instruction, callee *ssa.Function, args []Val, pc string, h *Heap, nm string, resT types.Type) bool {
+		e := f.e
+		arr, r := sbLen(e, h, args[0])
+		e.setGhost(h, "sb_len", arr, r, fmt.Sprintf("(+ (select %s %s) (slen %s))", arr, r, e.scalar(args[1])))
+		if resT != nil {
+			f.setResult(in, e.havocVal(nm, resT))
+		}
+		return true
+	})
+	reg("(*strings.Builder).Reset", []string{"G.sb_len"}, func(f *frame, in ssa.Instruction, callee *ssa.Function, args []Val, pc string, h *Heap, nm string, resT types.Type) bool {
+		e := f.e
+		arr, r := sbLen(e, h, args[0])
+		e.setGhost(h, "sb_len", arr, r, "0")
+		return true
+	})
+	reg("(*strings.Builder).Len", nil, func(f *frame, in ssa.Instruction, callee *ssa.Function, args []Val, pc string, h *Heap, nm string, resT types.Type) bool {
+		e := f.e
+		arr, r := sbLen(e, h, args[0])
+		f.setResult(in, Sc{e.define(nm, "Int", fmt.Sprintf("(select %s %s)", arr, r))})
+		return true
+	})
 	reg("(*bytes.Buffer).Write", nil, func(f *frame, in ssa.Instruction, callee *ssa.Function, args []Val, pc string, h *Heap, nm string, resT types.Type) bool {
 		s, _ := args[1].(SliceV)
 		f.setResult(in, TupleV{Sc{s.L}, Sc{"0"}}) // documented: err is always nil
@@ -334,6 +359,18 @@ func init() {
 			if !e.once[key] {
 				e.once[key] = true
 				e.assume(fmt.Sprintf("(and (<= (- 1) %s) (or (= %s (- 1)) (<= (+ %s (slen %s)) (slen %s))))", t, t, t, sub, s))
+				// a found occurrence really is one: the bytes of a short literal pattern are there
+				c := in.(ssa.CallInstruction).Common()
+				if k, ok := c.Args[1].(*ssa.Const); ok && k.Value != nil && k.Value.Kind() == constant.String {
+					lit := constant.StringVal(k.Value)
+					if len(lit) >= 1 && len(lit) <= 8 {
+						var eqs []string
+						for i := 0; i < len(lit); i++ {
+							eqs = append(eqs, fmt.Sprintf("(= (sat %s (+ %s %d)) %d)", s, t, i, lit[i]))
+						}
+						e.assume(fmt.Sprintf("(=> (>= %s 0) (and %s))", t, strings.Join(eqs, " ")))
+					}
+				}
 			}
 			if contains {
 				f.setResult(in, Sc{fmt.Sprintf("(>= %s 0)", t)})
@@ -665,7 +702,15 @@ func (f *frame) implHavoc(h *Heap, key string, arg Val) {
 	parts := strings.SplitN(key, "/", 2)
 	for _, fn := range e.w.implByKey(parts[0], parts[1]) {
 		m, all := e.w.modsOf(fn)
-		f.havocMods(h, m, all)
+		// the bytes an in-scope Read/Write implementation moves are those of the buffer the caller handed over,
+		// which the model of the library function accounts for itself
+		m2 := map[string]bool{}
+		for k := range m {
+			if k != "E.uint8" {
+				m2[k] = true
+			}
+		}
+		f.havocMods(h, m2, all)
 	}
 }
 
